@@ -72,7 +72,13 @@ def translate(notes):
         os.replace(tmp, gen)
     else:
         os.remove(tmp)
-    return True, json.load(open(rep))
+    report = json.load(open(rep))
+    missing = [n for n in EXPECTED_ROOTS if n not in report.get("roots_std", [])]
+    if missing:
+        notes.append("translator: these produced types were not recognised as such (no impl of Future / Stream / "
+                     "ConcurrentStream / Consumer found for them): " + ", ".join(missing))
+        return False, report
+    return True, report
 
 
 def refused_decls():
@@ -80,17 +86,34 @@ def refused_decls():
     script = os.path.join(WORK, "c18_refused.lean")
     open(script, "w").write('''import FcGen.Types
 open Fc.AT Fc.AT.Gen
-def bad (tag tr : String) (env : List Decl) (names : List String)
+def bad (tag tr : String) (env : List Decl) (names : List String) (roots : List Nat)
     (f : List Decl → (Nat → Rule) → Nat → Nat → Bool) : List String :=
-  (List.range env.length).filterMap (fun i => if f env ext 12 i then none else (names[i]?).map (fun n => s!"{tag} {tr} {n}"))
+  (List.range env.length).filterMap (fun i => if f env ext 12 i then none else
+    (names[i]?).map (fun n => s!"{if roots.contains i then tag else "helper-" ++ tag} {tr} {n}"))
 def main : IO Unit := do
-  for l in bad "std" "Send" env_std names_std sendOK ++ bad "std" "Sync" env_std names_std syncOK ++
-           bad "alloc" "Send" env_alloc names_alloc sendOK ++ bad "alloc" "Sync" env_alloc names_alloc syncOK do
+  for l in bad "std" "Send" env_std names_std roots_std sendOK ++ bad "std" "Sync" env_std names_std roots_std syncOK ++
+           bad "alloc" "Send" env_alloc names_alloc roots_alloc sendOK ++
+           bad "alloc" "Sync" env_alloc names_alloc roots_alloc syncOK do
     IO.println l
 ''')
     sh(["lake", "build", "FcGen"], cwd=LEAN)
     rc, out, err = sh(["lake", "env", "lean", "--run", script], cwd=LEAN)
-    return [tuple(l.split(" ", 2)) for l in out.splitlines() if l.strip()], (err if rc != 0 else "")
+    rows = [tuple(l.split(" ", 2)) for l in out.splitlines() if l.strip()]
+    # declarations that are not handed out by the crate (no impl of Future / Stream / ... ) and are not
+    # Send/Sync by themselves are reported, not refused: they only matter as fields of produced types
+    global HELPERS_NOT_AUTO
+    HELPERS_NOT_AUTO = [r for r in rows if r[0].startswith("helper-")]
+    return [r for r in rows if not r[0].startswith("helper-")], (err if rc != 0 else "")
+
+
+HELPERS_NOT_AUTO = []
+
+# produced types the translator must have recognised as such (guards the root detection itself)
+EXPECTED_ROOTS = ["Join", "Join2", "Join12", "TryJoin", "TryJoin12", "Race", "Race12", "RaceOk", "RaceOk12", "Merge", "Merge12",
+                  "Zip", "Zip12", "Chain", "Chain12", "WaitUntil", "FutureGroup", "StreamGroup", "Keyed", "FromStream",
+                  "ForEachConsumer", "ForEachFut", "TryForEachConsumer", "TryForEachFut", "VecConsumer", "ResultVecConsumer",
+                  "Map", "MapConsumer", "MapFuture", "Enumerate", "EnumerateConsumer", "Take", "TakeConsumer", "Limit",
+                  "LimitConsumer", "IntoConcurrentStream"]
 
 
 def run_probes(cfgs):
@@ -190,10 +213,14 @@ def main(prop, tier, seed, replay):
     pr = chk.prove(prop) if ok_tr else {"ok": False, "theorems": [], "axioms": {}, "detail": "translation failed",
                                          "module": "FcProps.C18"}
     refused = []
-    if ok_tr and not pr["ok"]:
+    if ok_tr:
         refused, e = refused_decls()
         if e:
             notes.append("listing refused declarations failed: " + e[-500:])
+        if HELPERS_NOT_AUTO:
+            notes.append("helper declarations that are not Send/Sync by themselves and are not handed out by the crate "
+                         "(not part of the property unless a produced type contains them, which the theorems would show): "
+                         + "; ".join(" ".join(r) for r in HELPERS_NOT_AUTO[:20]))
     with chk.lock("cargo"):
         probes = run_probes(["std", "alloc", "nostd"])
         rule_bad = ext_rules_check(notes) if ok_tr else []
@@ -260,6 +287,9 @@ def main(prop, tier, seed, replay):
             "opaque async-fn futures (for_each, try_for_each, collect, drive) are covered by rustc probes only (concrete Send-only "
             "instantiations), not by a Lean theorem: their field lists are compiler generated",
             "an unknown external type constructor is treated as neither Send nor Sync (conservative; would surface as a refused declaration)",
+            "the theorems range over the declarations the crate hands out (impl Future / Stream / ConcurrentStream / Consumer / "
+            "Into...; found by the translator, a fixed list of expected names guards the detection); helper types are "
+            "covered as fields of those",
         ] + notes,
         "wall_s": round(time.time() - t0, 2),
         "violations": 1 if rc else 0,
